@@ -164,6 +164,7 @@ class Emitter:
             import gen_types
             lits = gen_types.Literals()
         self.lits = lits
+        self.variant = None  # 'dec': contracts get their `requires_dec` clauses, obligations belong to C18 only
         self.sources = {}
         self.records = []   # functions under contract (for the evidence)
         self.rewrites = []  # list of applied rewrites
@@ -206,6 +207,9 @@ class Emitter:
             return indent + item.text() + '\n'
         c = self.contracts.get(container, name) or {}
         props = c.get('props', [])
+        if self.variant == 'dec':
+            c = dict(c, requires=list(c.get('requires', [])) + list(c.get('requires_dec', [])))
+            props = ['C18'] if 'C18' in props else []
         sig = rsparse.FnSig(item)
         out_name = name
         attrs = kept_attrs(item)
@@ -356,6 +360,31 @@ def gen_hasref(subst=F64_SUBST, extra=()):
     return text, em
 
 
+DEC_SUBST = {'OPREQ_add': 'ok_add(self, rhs)', 'OPREQ_sub': 'ok_sub(self, rhs)', 'OPREQ_mul': 'ok_mul(self, rhs)',
+             'OPREQ_div': 'ok_div(self, rhs)', 'RATEREQ_mul': 'true'}
+
+
+def gen_hasref_decok():
+    """C18, decimal configuration: HasRefUnit's default methods with the operator preconditions of fpdec switched
+    on (Layer A-dec: each method performs only the operations named by its `*_ok` predicate) and the range lemmas
+    (Layer B-dec: the property's range conditions imply those predicates under the stated fpdec contract)."""
+    em = Emitter('gen_hasref_decok', Contracts('generic.toml'))
+    em.variant = 'dec'
+    parts = [em.render(f, DEC_SUBST) for f in ('shim_m0.vrs', 'traits_core.vrs', 'hasref_specs.vrs', 'trait_hasref.vrs',
+                                                 'dec_ok_specs.vrs', 'm1_dec.vrs', 'lemmas_c18_dec.vrs')]
+    parts.insert(1, em.lits.decls())
+    text = mark_lemmas(wrap('\n\n'.join(parts)), em.unit)
+    return text, em
+
+
+def context_only(text):
+    """extracted bodies that are obligations of another unit (gen_hasref): the marker stays, so that a diagnostic inside
+    the body is attributed to it, but it belongs to no property here.  (Turning these bodies into external_body was
+    tried: Z3 then diverged on one of the non-linear lemmas - the bodies stay as they are.)"""
+    return '\n'.join(re.sub(r' props=\S* kind=exec', ' props= kind=context', l) if l.strip().startswith('//@ob ') else l
+                     for l in text.split('\n'))
+
+
 def gen_m1_f64(subst=F64_SUBST):
     """Layer-B lemmas over the M1-f64 rounding model (contracts re-stated on the same spec functions)"""
     em = Emitter('lemmas_m1_f64', Contracts('generic.toml'))
@@ -364,7 +393,7 @@ def gen_m1_f64(subst=F64_SUBST):
     parts.insert(1, em.lits.decls())
     text = mark_lemmas(wrap('\n\n'.join(parts)), em.unit)
     # the extracted bodies in this file are context only (they are obligations of gen_hasref)
-    text = '\n'.join(l for l in text.split('\n') if not (l.strip().startswith('//@ob ') and 'kind=exec' in l))
+    text = context_only(text)
     em.records = []
     return text, em
 
@@ -376,12 +405,12 @@ def gen_m1_dec(subst=F64_SUBST):
                                            'derived_specs.vrs', 'lemmas_derived_m0.vrs', 'm1_dec.vrs', 'lemmas_m1_dec.vrs')]
     parts.insert(1, em.lits.decls())
     text = mark_lemmas(wrap('\n\n'.join(parts)), em.unit)
-    text = '\n'.join(l for l in text.split('\n') if not (l.strip().startswith('//@ob ') and 'kind=exec' in l))
+    text = context_only(text)
     em.records = []
     return text, em
 
 
 if __name__ == '__main__':
     which = sys.argv[1]
-    text, em = {'quantity': gen_quantity, 'hasref': gen_hasref, 'm1': gen_m1_f64, 'm1dec': gen_m1_dec}[which]()
+    text, em = {'quantity': gen_quantity, 'hasref': gen_hasref, 'm1': gen_m1_f64, 'm1dec': gen_m1_dec, 'decok': gen_hasref_decok}[which]()
     sys.stdout.write(text)
